@@ -12,10 +12,10 @@ import (
 func main() {
 	level := flag.Int("level", 1, "universe level")
 	out := flag.String("out", "", "output .tl file")
-	universe := flag.String("universe", "", "\"\" = uni.Universe(level); \"reg\" = uni.UniverseReg() (registry/function universe)")
+	universe := flag.String("universe", "", "\"\" = uni.Universe(level); \"reg\" = uni.UniverseReg(level) (registry/function universe; level 0 = alone, >= 1 merged with Universe(level))")
 	flag.Parse()
 	if *universe == "reg" {
-		ru := uni.UniverseReg()
+		ru := uni.UniverseReg(*level)
 		if err := os.WriteFile(*out, []byte(ru.Text()), 0o644); err != nil {
 			fmt.Fprintln(os.Stderr, err)
 			os.Exit(2)
